@@ -147,8 +147,7 @@ Definition file_src (st : state) (p : param) : option (value * nat) :=
 
 Definition resolve (st : state) (p : param) : lres :=
   match p_over p with
-  | Some v => if is_null_str v then LCrash
-              else if p_ro p then LFound (p_default p) SDefault None else LFound v SOverride None
+  | Some v => if p_ro p then LFound (p_default p) SDefault None else LFound v SOverride None
   | None =>
     if p_ro p then LFound (p_default p) SDefault None else
     match lookup_env (st_env st) p with
@@ -167,7 +166,7 @@ Proof.
   intros st idx. unfold param_lookup. destruct (get_param (st_params st) idx) as [p|]; [|reflexivity].
   unfold lookup_stages, resolve, file_src.
   destruct (p_over p) as [v|].
-  - cbn. destruct (is_null_str v); [reflexivity|]. destruct (p_ro p); reflexivity.
+  - cbn. destruct (p_ro p); reflexivity.
   - destruct (lookup_env (st_env st) p) as [v|].
     + cbn. destruct (p_ro p); reflexivity.
     + destruct (p_file p) as [[v fi]|].
@@ -189,16 +188,13 @@ Definition found (x : option (value * source * option nat)) : lres :=
 
 Lemma lookup_precedence : forall st idx p,
   get_param (st_params st) idx = Some p ->
-  p_over p <> Some (VStr None) ->
   snd (param_lookup st idx) =
     if p_ro p then LFound (p_default p) SDefault None
     else found (first_some (fun x => x) (sources st p)).
 Proof.
-  intros st idx p Hg Hnn. rewrite lookup_resolve, Hg. unfold resolve, sources, lookup_env.
+  intros st idx p Hg. rewrite lookup_resolve, Hg. unfold resolve, sources, lookup_env.
   destruct (p_over p) as [v|] eqn:Ho.
-  - assert (Hn : is_null_str v = false).
-    { destruct v as [z|z|[s|]]; try reflexivity. contradiction. }
-    rewrite Hn. destruct (p_ro p); reflexivity.
+  - destruct (p_ro p); reflexivity.
   - destruct (p_ro p); [reflexivity|]. cbn [first_some option_map].
     destruct (first_some (env_get (st_env st)) (names p)) as [s|]; [reflexivity|].
     destruct (file_src st p) as [[v fi]|]; reflexivity.
@@ -279,14 +275,14 @@ Qed.
 
 (* what set / unset do to the parameter itself *)
 Lemma set_then_lookup : forall st idx p v,
-  get_param (st_params st) idx = Some p -> type_of v = p_type p -> is_null_str v = false ->
+  get_param (st_params st) idx = Some p -> type_of v = p_type p ->
   snd (param_lookup (fst (set_value st idx v)) idx) =
     if p_ro p then LFound (p_default p) SDefault None else LFound v SOverride None.
 Proof.
-  intros st idx p v Hg Ht Hn. rewrite lookup_resolve. unfold set_value. rewrite Hg, Ht.
+  intros st idx p v Hg Ht. rewrite lookup_resolve. unfold set_value. rewrite Hg, Ht.
   assert (E : ptype_eqb (p_type p) (p_type p) = true) by (destruct (p_type p); reflexivity).
   rewrite E. cbn [fst st_params]. rewrite (get_param_upd_same _ _ _ _ Hg).
-  unfold resolve. cbn [set_over p_over p_ro p_default]. rewrite Hn. reflexivity.
+  unfold resolve. cbn [set_over p_over p_ro p_default]. reflexivity.
 Qed.
 
 Lemma unset_then_lookup : forall st idx p,
@@ -398,10 +394,10 @@ Qed.
 
 (* ---- read-only ------------------------------------------------------------------------------- *)
 Lemma read_only_default : forall st idx p,
-  get_param (st_params st) idx = Some p -> p_ro p = true -> p_over p <> Some (VStr None) ->
+  get_param (st_params st) idx = Some p -> p_ro p = true ->
   snd (param_lookup st idx) = LFound (p_default p) SDefault None.
 Proof.
-  intros st idx p Hg Hro Hnn. rewrite (lookup_precedence _ _ _ Hg Hnn), Hro. reflexivity.
+  intros st idx p Hg Hro. rewrite (lookup_precedence _ _ _ Hg), Hro. reflexivity.
 Qed.
 
 (* ---- not found ---------------------------------------------------------------------------------- *)
